@@ -7,7 +7,8 @@
 (***************************************************************************)
 EXTENDS Naturals, Integers, Sequences, BigZ, Dbl
 
-FunsQ == {"mpq_init", "mpq_clear", "mpq_set", "mpq_set_z", "mpq_set_ui", "mpq_set_si", "mpq_set_d", "mpq_set_num", "mpq_set_den",
+FunsQ == {"mpq_self_set_z_den", "mpq_self_set_z_num", "mpq_self_set_num_den", "mpq_self_set_den_num", "mpq_self_get_den_num", "mpq_self_get_num_den",
+          "mpq_self_z_set_q_num", "mpq_self_z_add", "mpq_self_z_mul", "mpq_self_z_tdiv_qr", "mpq_init", "mpq_clear", "mpq_set", "mpq_set_z", "mpq_set_ui", "mpq_set_si", "mpq_set_d", "mpq_set_num", "mpq_set_den",
           "mpq_get_num", "mpq_get_den", "mpq_swap", "mpq_canonicalize", "mpq_add", "mpq_sub", "mpq_mul", "mpq_div", "mpq_neg", "mpq_abs",
           "mpq_inv", "mpq_mul_2exp", "mpq_div_2exp", "mpq_cmp", "mpq_cmp_ui", "mpq_cmp_si", "mpq_cmp_z", "mpq_equal", "mpq_sgn",
           "mpq_get_d", "mpq_inits", "mpq_clears"}
@@ -58,6 +59,17 @@ PostQ(f, A, O, r, x) ==
      [] f = "mpq_set_den" -> Is(O[1], <<A[1][1], A[2]>>)
      [] f = "mpq_get_num" -> O[1].v = A[2][1]
      [] f = "mpq_get_den" -> O[1].v = A[2][2]
+        \* component aliasing: the integer operand is the numerator / denominator of the rational operand itself (results as with a separate integer of that value)
+     [] f = "mpq_self_set_z_den" -> Is(O[1], <<A[1][2], "1">>)
+     [] f = "mpq_self_set_z_num" -> Is(O[1], <<A[1][1], "1">>)
+     [] f = "mpq_self_set_num_den" -> Is(O[1], <<A[1][2], A[1][2]>>)
+     [] f = "mpq_self_set_den_num" -> Is(O[1], IF ZSgn(A[1][1]) > 0 THEN <<A[1][1], A[1][1]>> ELSE A[1])
+     [] f = "mpq_self_get_den_num" -> Is(O[1], <<A[1][2], A[1][2]>>)
+     [] f = "mpq_self_get_num_den" -> Is(O[1], IF ZSgn(A[1][1]) > 0 THEN <<A[1][1], A[1][1]>> ELSE A[1])
+     [] f = "mpq_self_z_set_q_num" -> Is(O[1], <<ZTDivQ(A[1][1], A[1][2]), A[1][2]>>)
+     [] f = "mpq_self_z_add" -> Is(O[1], <<ZAdd(A[1][1], A[1][2]), A[1][2]>>)
+     [] f = "mpq_self_z_mul" -> Is(O[1], <<A[1][1], ZMul(A[1][1], A[1][2])>>)
+     [] f = "mpq_self_z_tdiv_qr" -> Is(O[1], <<ZTDivQ(A[1][1], A[1][2]), ZTDivR(A[1][1], A[1][2])>>)
      [] f = "mpq_swap" -> Is(O[1], A[2]) /\ Is(O[2], A[1])
      [] f = "mpq_canonicalize" -> Is(O[1], QCanon(A[1][1], A[1][2]))
      [] f = "mpq_add" -> Is(O[1], QCanon(ZAdd(ZMul(A[2][1], A[3][2]), ZMul(A[3][1], A[2][2])), ZMul(A[2][2], A[3][2])))
